@@ -99,6 +99,14 @@ CHECKS["C06"] = (
     "DESIGN.md section 2 / C06",
 )
 
+CHECKS["C01"] = (
+    "proptest-generated C programs, C++ graphs, unusual-declaration compositions and clang-accepted mutants of repository headers x option groups x renaming callbacks; validity predicate = rustc accepts the emitted module",
+    "exploration",
+    "Every generated (header, option set, callback) triple is run through bindgen in-process and the emitted text is compiled with rustc (metadata-only library build in the selected edition: parsing, name resolution, type checking of derives and impls, evaluation of every const assertion); old-style layout test functions are built with --test and executed. All usable repository headers are compiled as written. A validity predicate over generated programs is the right level: there are many acceptable outputs and the property only demands that rustc accepts them.",
+    "rustc 1.95 judges all --rust-target values; nightly-only output is not compiled; options documented as non-self-contained are not drawn; constructs behind the known findings (packed+aligned combinations, unions emitted as structs inside packed types, derives through packed non-Copy members, virtual bases and non-POD base tail padding, templates with bit-fields or nested classes, alias templates under newtype style, ABI overrides unavailable at the target) are reported as KNOWN-FINDING and partly excluded by construction.",
+    "DESIGN.md section 2 / C01",
+)
+
 NOT_YET = {}
 
 def main():
